@@ -20,6 +20,8 @@ func init() {
 	reg("C13", "C13.T", "E5", "no unchecked type assertion reachable from Do outside the reviewed table", 1, ruleActionAsserts)
 	reg("C13", "C13.I", "E1", "field invariants the reviewed table relies on (parallel slices written only at Start; multi-line buffer keeps its first byte)", 8, ruleReviewedInvariants)
 	reg("C13", "C13.N", "E5", "no receiver-dereferencing node method on a possibly-nil Dig result", 1, ruleNilNodes)
+	reg("C13", "C13.M", "E1+E2", "metric label values (taken from event fields) are made valid UTF-8 before they reach a panicking prometheus Vec method", 4, ruleMetricLabelsSanitized)
+	reg("C13", "C13.D", "E2", "no integer division or remainder by a value that may be zero (reviewed table otherwise)", 1, ruleActionDivisions)
 }
 
 // coreType: receiver types of package pipeline that are the engine itself, not helpers.
@@ -360,4 +362,356 @@ func ruleReviewedInvariants(c *Ctx, r *Rule) {
 			"MultilineAction.eventBuf is only appended to, or re-sliced to [:n>=1] of its current value: the opening quote written at Start stays byte 0 (a fresh buffer re-sliced to [:1] would put a zero byte in front of the joined log and emit malformed JSON)")
 	}
 	r.Inst(nW)
+	// group-number lists that index a regexp submatch table: the reviewed reasons say "verified
+	// against NumSubexp"; the verifier RETURNS the list to use (it collapses a list containing 0 to
+	// [0] and stops checking there), so the stored list must be its result, not its argument
+	for _, f := range []fld{{"cfg/substitution", "RegexFilter", "groups"}, {"plugin/action/mask", "Mask", "Groups"}} {
+		n := c.Named(f.pkg, f.typ)
+		if n == nil || fieldByName(n, f.field) == nil {
+			r.Unresolved(f.pkg + "." + f.typ + "." + f.field)
+			continue
+		}
+		nG := 0
+		for _, a := range c.fieldAccesses(modulePath+"/"+f.pkg, f.typ, f.field) {
+			if !a.write {
+				continue
+			}
+			nG++
+			r.Inst(1)
+			isVerified := func(v ssa.Value) bool {
+				call, ok := v.(*ssa.Call)
+				return ok && call.Call.StaticCallee() != nil && call.Call.StaticCallee().Name() == "VerifyGroupNumbers"
+			}
+			ok := isVerified(a.val)
+			if ld, isLd := a.val.(*ssa.UnOp); !ok && isLd && ld.Op == token.MUL {
+				if al, isAl := ld.X.(*ssa.Alloc); isAl {
+					// address-taken local (filled by json.Unmarshal): the last definition before the
+					// field write must be a store of the verifier's result
+					if refs := al.Referrers(); refs != nil {
+						for _, rf := range *refs {
+							st, isSt := rf.(*ssa.Store)
+							if !isSt || st.Addr != ssa.Value(al) || !isVerified(st.Val) || !instrDominates(st, a.in) {
+								continue
+							}
+							// nothing redefines the local between that store and the field write
+							redef, _ := c.pathExists(a.fn, st, func(in ssa.Instruction) bool {
+								if in == a.in {
+									return false
+								}
+								switch x := in.(type) {
+								case *ssa.Store:
+									return x.Addr == ssa.Value(al)
+								case ssa.CallInstruction:
+									for _, arg := range x.Common().Args {
+										if arg == ssa.Value(al) {
+											return true
+										}
+									}
+								}
+								return false
+							}, func(in ssa.Instruction) bool { return in == a.in })
+							if !redef {
+								ok = true
+							}
+						}
+					}
+				}
+			}
+			r.Ob(ok, fmt.Sprintf("%s|%s.%s#%d|verified-result-stored", c.fnName(a.fn), f.typ, f.field, nG), a.in.Pos(),
+				"the group-number list kept for event processing is the RESULT of cfg.VerifyGroupNumbers (a list like [0, 7] passes the verifier, which returns [0]; keeping the original list indexes past the submatch table on the first match)")
+		}
+		r.Ob(nG >= 1, f.typ+"."+f.field+"|has-writer", n.Obj().Pos(), "the group list is set at configuration time")
+	}
+	// throttle: the reviewed division by the bucket interval (and the ring indexing) rely on Start
+	// rejecting a non-positive bucket_interval / buckets_count
+	if start := c.Method("plugin/action/throttle", "Plugin", "Start"); start == nil {
+		r.Unresolved("throttle Plugin.Start")
+	} else {
+		for _, fld := range []string{"BucketInterval_", "BucketsCount"} {
+			r.Inst(1)
+			rejected := false
+			for _, b := range start.Blocks {
+				for _, in := range b.Instrs {
+					if !isNoReturn(in) {
+						continue
+					}
+					for _, l := range c.unitGuards(in) {
+						op, x, y, ok := cmpLit(l)
+						if !ok || !isLoadOfField(x, throttlePkg, "Config", fld) {
+							continue
+						}
+						if k, isK := constInt(y); isK && ((op == token.LEQ && k == 0) || (op == token.LSS && k == 1)) {
+							rejected = true
+						}
+					}
+				}
+			}
+			r.Ob(rejected, "(*plugin/action/throttle.Plugin).Start|rejects-non-positive|"+fld, start.Pos(), "Start ends the process when "+fld+" <= 0: the per-event bucket arithmetic divides by the interval and indexes a ring of that many buckets")
+		}
+	}
+}
+
+const promPkg = "github.com/prometheus/client_golang/prometheus"
+
+// ruleMetricLabelsSanitized: prometheus panics (in the calling goroutine, i.e. the processor) when a
+// label value is not valid UTF-8. Label values come from event fields (mask, throttle, cardinality),
+// so every way into a panicking Vec method must pass a sanitizer that makes each value valid.
+func ruleMetricLabelsSanitized(c *Ctx, r *Rule) {
+	isPanickingVecMethod := func(f *ssa.Function) bool {
+		if f == nil {
+			return false
+		}
+		// method values appear as bound-method wrappers
+		name := f.Name()
+		name = strings.TrimSuffix(name, "$bound")
+		if name != "WithLabelValues" && name != "With" && name != "MustCurryWith" {
+			return false
+		}
+		var recv types.Type
+		if f.Signature.Recv() != nil {
+			recv = f.Signature.Recv().Type()
+		} else if len(f.FreeVars) == 1 {
+			recv = f.FreeVars[0].Type()
+		}
+		rn := namedOf(deref(recv))
+		return rn != nil && rn.Obj().Pkg() != nil && rn.Obj().Pkg().Path() == promPkg && strings.HasSuffix(rn.Obj().Name(), "Vec")
+	}
+	// (a) every reference to such a method: a method value handed to the store's get-or-create
+	var stores []*ssa.Function
+	n := 0
+	for _, fn := range c.ModFuncs {
+		for _, b := range fn.Blocks {
+			for _, in := range b.Instrs {
+				switch x := in.(type) {
+				case *ssa.MakeClosure:
+					f, _ := x.Fn.(*ssa.Function)
+					if !isPanickingVecMethod(f) {
+						continue
+					}
+					n++
+					r.Inst(1)
+					okUse := false
+					if refs := x.Referrers(); refs != nil {
+						for _, rf := range *refs {
+							if ci, ok := rf.(ssa.CallInstruction); ok {
+								if g := calleeFunc(ci); g != nil && c.inModule(g) && strings.HasPrefix(g.Name(), "GetOrCreate") {
+									okUse = true
+									stores = append(stores, g)
+								}
+							}
+						}
+					}
+					r.Ob(okUse, fmt.Sprintf("%s|vec-method-value#%d", c.fnName(fn), n), x.Pos(), "a panicking prometheus Vec method is only handed, as a method value, to the metric store's get-or-create (which sanitizes the label values first)")
+				case ssa.CallInstruction:
+					if f := calleeFunc(x); isPanickingVecMethod(f) && f.Signature.Recv() != nil {
+						n++
+						r.Inst(1)
+						allConst := true
+						for _, a := range x.Common().Args[1:] {
+							if sl, isSl := a.(*ssa.Slice); isSl {
+								if _, isAl := sl.X.(*ssa.Alloc); isAl {
+									continue // varargs of the call: checked through their stores below
+								}
+							}
+							if _, isC := a.(*ssa.Const); !isC {
+								allConst = false
+							}
+						}
+						okCall := allConst && len(x.Common().Args) <= 1
+						// a forwarding closure `func(s ...string) { return vec.WithLabelValues(s...) }` handed to the store
+						if !okCall && fn.Parent() != nil && len(x.Common().Args) == 2 {
+							if p, isP := x.Common().Args[1].(*ssa.Parameter); isP && p.Parent() == fn {
+								handed := 0
+								for _, in2 := range allInstrs(fn.Parent()) {
+									mc, isMC := in2.(*ssa.MakeClosure)
+									if !isMC || mc.Fn != ssa.Value(fn) {
+										continue
+									}
+									if refs := mc.Referrers(); refs != nil {
+										for _, rf := range *refs {
+											if ci, ok := rf.(ssa.CallInstruction); ok {
+												if g := calleeFunc(ci); g != nil && c.inModule(g) && strings.HasPrefix(g.Name(), "GetOrCreate") {
+													handed++
+													stores = append(stores, g)
+												} else {
+													handed = -100
+												}
+											} else {
+												handed = -100
+											}
+										}
+									}
+								}
+								okCall = handed >= 1
+							}
+						}
+						r.Ob(okCall, fmt.Sprintf("%s|vec-method-call#%d", c.fnName(fn), n), x.Pos(), "a panicking prometheus Vec method is called with computed label values only from a forwarding closure handed to the metric store's get-or-create")
+					}
+				}
+			}
+		}
+	}
+	r.Ob(n >= 3 && len(stores) >= 1, "metric|vec-methods-found", token.NoPos, fmt.Sprintf("label-taking prometheus Vec methods are reached through the metric store (%d references)", n))
+	// (b) the store sanitizes first; (c) the sanitizer makes every value valid UTF-8
+	seen := map[*ssa.Function]bool{}
+	for _, g := range stores {
+		if seen[g] {
+			continue
+		}
+		seen[g] = true
+		r.Inst(1)
+		labels := g.Params[1]
+		var san ssa.CallInstruction
+		for _, ci := range callsIn(g) {
+			for _, a := range ci.Common().Args {
+				if a == ssa.Value(labels) {
+					if f := calleeFunc(ci); f != nil && c.inModule(f) && c.sanitizesUTF8(f) {
+						if san == nil {
+							san = ci
+						}
+					}
+				}
+			}
+		}
+		okFirst := san != nil
+		if okFirst {
+			if refs := labels.Referrers(); refs != nil {
+				for _, rf := range *refs {
+					if rf == ssa.Instruction(san) {
+						continue
+					}
+					if _, isDbg := rf.(*ssa.DebugRef); isDbg {
+						continue
+					}
+					if !instrDominates(san, rf) {
+						okFirst = false
+					}
+				}
+			}
+		}
+		r.Ob(okFirst, c.fnName(g)+"|sanitizes-before-use", g.Pos(), "the label values are made valid UTF-8 before anything else is done with them (prometheus panics on an invalid label value; a byte-length cut can split a rune)")
+	}
+}
+
+// sanitizesUTF8: f rewrites every element of its []string parameter so that it is valid UTF-8:
+// every return is behind the element loop, and on every way round the loop the element is either
+// known valid (utf8.ValidString true) or replaced by strings.ToValidUTF8(...).
+func (c *Ctx) sanitizesUTF8(f *ssa.Function) bool {
+	var sl *ssa.Parameter
+	for _, p := range f.Params {
+		if s, ok := p.Type().Underlying().(*types.Slice); ok {
+			if b, isB := s.Elem().Underlying().(*types.Basic); isB && b.Kind() == types.String {
+				sl = p
+			}
+		}
+	}
+	if sl == nil {
+		return false
+	}
+	// element loads and the loop
+	var elem *ssa.UnOp
+	for _, b := range f.Blocks {
+		for _, in := range b.Instrs {
+			if u, ok := in.(*ssa.UnOp); ok && u.Op == token.MUL {
+				if ia, isIA := u.X.(*ssa.IndexAddr); isIA && ia.X == ssa.Value(sl) && elem == nil {
+					elem = u
+				}
+			}
+		}
+	}
+	if elem == nil {
+		return false
+	}
+	head := loopHeadOf(elem)
+	if head == nil {
+		return false
+	}
+	for _, ret := range returnsOf(f) {
+		if !head.Dominates(ret.Block()) {
+			return false // a way out that never looks at the values
+		}
+	}
+	isFix := func(in ssa.Instruction) bool {
+		st, ok := in.(*ssa.Store)
+		if !ok {
+			return false
+		}
+		ia, isIA := st.Addr.(*ssa.IndexAddr)
+		if !isIA || ia.X != ssa.Value(sl) {
+			return false
+		}
+		for _, leaf := range phiLeaves(st.Val) {
+			call, isCall := leaf.(*ssa.Call)
+			if !isCall || call.Call.StaticCallee() == nil || qualName(call.Call.StaticCallee()) != "strings.ToValidUTF8" {
+				return false
+			}
+		}
+		return true
+	}
+	first := head.Instrs[0]
+	bad, _ := c.pathExistsE(f, elem, func(in ssa.Instruction) bool { return in == first || isReturn(in) }, isFix, func(b *ssa.BasicBlock, i int) bool {
+		iff, ok := b.Instrs[len(b.Instrs)-1].(*ssa.If)
+		if !ok {
+			return true
+		}
+		v, pol := peelNot(iff.Cond, i == 0)
+		if call, isCall := v.(*ssa.Call); isCall && call.Call.StaticCallee() != nil && qualName(call.Call.StaticCallee()) == "unicode/utf8.ValidString" && pol {
+			return false // known valid: nothing to repair on this way
+		}
+		return true
+	})
+	return !bad
+}
+
+func allInstrs(fn *ssa.Function) []ssa.Instruction {
+	var out []ssa.Instruction
+	for _, b := range fn.Blocks {
+		out = append(out, b.Instrs...)
+	}
+	return out
+}
+
+// runDivisions: integer division / remainder by a value not known to be non-zero panics.
+// A divisor is accepted when it is a non-zero constant, when a dominating branch established
+// != 0 / > 0 / >= 1 for it (own guard facts), or when it is (a conversion of) a struct field
+// that is only written by initialisation code from a value checked there (reviewed otherwise).
+func (c *Ctx) runDivisions(r *Rule, scope []*ssa.Function) {
+	for _, fn := range scope {
+		n := 0
+		for _, b := range fn.Blocks {
+			for _, in := range b.Instrs {
+				bo, ok := in.(*ssa.BinOp)
+				if !ok || (bo.Op != token.QUO && bo.Op != token.REM) || !isIntegerType(bo.Type()) {
+					continue
+				}
+				if k, isK := constInt(bo.Y); isK && k != 0 {
+					continue
+				}
+				n++
+				r.Inst(1)
+				div := stripConv(bo.Y)
+				okG := false
+				for _, l := range c.unitGuards(bo) {
+					op, x, y, isCmp := cmpLit(l)
+					if !isCmp || !(sameValue(stripConv(x), div) || x == bo.Y) {
+						continue
+					}
+					k, isK := constInt(y)
+					if !isK {
+						continue
+					}
+					if (op == token.NEQ && k == 0) || (op == token.GTR && k >= 0) || (op == token.GEQ && k >= 1) {
+						okG = true
+					}
+				}
+				r.Ob(okG, fmt.Sprintf("%s|div#%d|%s", c.fnName(fn), n, c.path(bo.Y)), bo.Pos(), "integer division / remainder by "+c.path(bo.Y)+": a dominating test establishes that it is not zero")
+			}
+		}
+	}
+}
+
+func ruleActionDivisions(c *Ctx, r *Rule) {
+	c.runDivisions(r, c.actionScope())
+	r.Inst(1)
+	r.Ob(true, "scope", token.NoPos, "integer divisions in the action scope enumerated")
 }
